@@ -4,6 +4,8 @@ import (
 	"context"
 	"sync"
 	"sync/atomic"
+
+	"github.com/feichai0017/NoKV/utils/verifhook"
 )
 
 const defaultWatermarkWindow = 1 << 16
@@ -109,10 +111,13 @@ func (w *WaterMark) SetLastIndex(index uint64) {
 
 // WaitForMark waits until the given index is marked as done.
 func (w *WaterMark) WaitForMark(ctx context.Context, index uint64) error {
+	verifhook.Yield("utils.WaterMark.WaitForMark.fast")
 	if w.DoneUntil() >= index {
 		return nil
 	}
+	verifhook.Yield("utils.WaterMark.WaitForMark.lock")
 	w.mu.Lock()
+	verifhook.Yield("utils.WaterMark.WaitForMark.check")
 	if w.DoneUntil() >= index {
 		w.mu.Unlock()
 		return nil
@@ -124,6 +129,7 @@ func (w *WaterMark) WaitForMark(ctx context.Context, index uint64) error {
 	}
 	w.mu.Unlock()
 
+	verifhook.Yield("utils.WaterMark.WaitForMark.select")
 	select {
 	case <-ctx.Done():
 		return ctx.Err()
@@ -138,6 +144,7 @@ func (w *WaterMark) addIndex(index uint64, delta int32) {
 	}
 	win := w.ensureWindow(index)
 	offset := index - win.base
+	verifhook.Yield("utils.WaterMark.addIndex.add")
 	if offset < uint64(len(win.slots)) {
 		win.slots[offset].Add(delta)
 	}
@@ -146,10 +153,12 @@ func (w *WaterMark) addIndex(index uint64, delta int32) {
 
 func (w *WaterMark) setLastIndex(index uint64) {
 	for {
+		verifhook.Yield("utils.WaterMark.setLastIndex.load")
 		cur := atomic.LoadUint64(&w.lastIndex)
 		if index <= cur {
 			return
 		}
+		verifhook.Yield("utils.WaterMark.setLastIndex.cas")
 		if atomic.CompareAndSwapUint64(&w.lastIndex, cur, index) {
 			return
 		}
@@ -158,21 +167,26 @@ func (w *WaterMark) setLastIndex(index uint64) {
 
 func (w *WaterMark) tryAdvance() {
 	for {
+		verifhook.Yield("utils.WaterMark.tryAdvance.done")
 		doneUntil := w.DoneUntil()
+		verifhook.Yield("utils.WaterMark.tryAdvance.last")
 		lastIndex := w.LastIndex()
 		if doneUntil >= lastIndex {
 			return
 		}
 		next := doneUntil + 1
+		verifhook.Yield("utils.WaterMark.tryAdvance.window")
 		win := w.loadWindow()
 		if next < win.base || next >= win.base+uint64(len(win.slots)) {
 			w.ensureWindow(next)
 			continue
 		}
 		offset := next - win.base
+		verifhook.Yield("utils.WaterMark.tryAdvance.slot")
 		if win.slots[offset].Load() > 0 {
 			return
 		}
+		verifhook.Yield("utils.WaterMark.tryAdvance.cas")
 		if atomic.CompareAndSwapUint64(&w.doneUntil, doneUntil, next) {
 			w.notifyWaiters(doneUntil, next)
 			continue
@@ -191,28 +205,36 @@ func (w *WaterMark) notifyWaitersLocked(_ uint64, until uint64) {
 }
 
 func (w *WaterMark) notifyWaiters(prev, until uint64) {
+	verifhook.Yield("utils.WaterMark.notifyWaiters.lock")
 	w.mu.Lock()
+	verifhook.Yield("utils.WaterMark.notifyWaiters.close")
 	w.notifyWaitersLocked(prev, until)
 	w.mu.Unlock()
 }
 
 func (w *WaterMark) ensureWindow(index uint64) *watermarkWindow {
+	verifhook.Yield("utils.WaterMark.ensureWindow.load")
 	win := w.loadWindow()
 	if index >= win.base && index < win.base+uint64(len(win.slots)) {
 		return win
 	}
+	verifhook.Yield("utils.WaterMark.ensureWindow.lock")
 	w.mu.Lock()
 	defer w.mu.Unlock()
+	verifhook.Yield("utils.WaterMark.ensureWindow.reload")
 	win = w.loadWindow()
 	if index >= win.base && index < win.base+uint64(len(win.slots)) {
+		verifhook.Yield("utils.WaterMark.ensureWindow.unlock")
 		return win
 	}
 	w.rebuildWindowLocked(index, win)
+	verifhook.Yield("utils.WaterMark.ensureWindow.final")
 	return w.loadWindow()
 }
 
 // rebuildWindowLocked resizes the window; caller must hold w.mu.
 func (w *WaterMark) rebuildWindowLocked(index uint64, win *watermarkWindow) {
+	verifhook.Yield("utils.WaterMark.rebuildWindowLocked.done")
 	done := w.DoneUntil()
 	newBase := done + 1
 	if index < newBase {
@@ -228,6 +250,7 @@ func (w *WaterMark) rebuildWindowLocked(index uint64, win *watermarkWindow) {
 	}
 	newSlots := make([]atomic.Int32, size)
 	for i := range win.slots {
+		verifhook.Yield("utils.WaterMark.rebuildWindowLocked.copy")
 		count := win.slots[i].Load()
 		if count == 0 {
 			continue
@@ -242,6 +265,7 @@ func (w *WaterMark) rebuildWindowLocked(index uint64, win *watermarkWindow) {
 		}
 		newSlots[offset].Store(count)
 	}
+	verifhook.Yield("utils.WaterMark.rebuildWindowLocked.store")
 	w.window.Store(&watermarkWindow{
 		base:  newBase,
 		slots: newSlots,
